@@ -91,7 +91,8 @@ pub fn gen(ctx: &Ctx) -> Vec<Value> {
         // choices from a stream of their own (the cases above stay what they were)
         let mut y = Rng::new(sub ^ 0x70F0_0123);
         // the top-level form: the grid walks through all of them, the random part picks
-        let top = if c < 728 { TOP_FORMS[c % TOP_FORMS.len()] } else { *y.pick(TOP_FORMS) };
+        let top = if c < 728 { // (the grid has 714 cases: the first random cases walk the forms too)
+            TOP_FORMS[c % TOP_FORMS.len()] } else { *y.pick(TOP_FORMS) };
         // a record the builder refuses half way, to be pushed in the middle of the rows of a history that goes on
         // afterwards (finding C10-use-after-failed-push); null: the rows as they are (non-strict rows fail on their own)
         let bad = if y.chance(2, 3) { crate::suites::hist::bad_record(&mut y, &schema) } else { Value::Null };
